@@ -92,7 +92,7 @@ func c11(c *vc.Ctx) {
 	mutCorpus := !c.Quick()        // mutate the corpus programs too
 	mutMaxLen := vc.Pick(c, 8, 20) // programs up to this many bytes get deletions/replacements
 	insMaxLen := vc.Pick(c, 0, 10) // programs up to this many bytes also get insertions
-	c.Rule = strings.Replace(space.describe(), "each program is taken in every language variant in which it parses", "each program is taken in all 5 language variants", 1) +
+	c.Rule = strings.Replace(strings.Replace(space.describe(), "each program is taken in every language variant in which it parses", "each program is taken in all 5 language variants", 1), " (deep/layout programs in all variants: false)", "", 1) +
 		fmt.Sprintf("; plus every 1-token edit (delete a token; replace a token by one of the %d tokens of the mutation alphabet = all variant-gated operators/keywords + structural tokens; insertion of an alphabet token at every token boundary for programs of at most %d bytes) of the depth<=1 default-layout grammar programs (corpus programs too: %v) of at most %d bytes; RecoverErrors limits {1,2,5}. "+
 			"Oracle per program: (1) if Parse(LangPOSIX) succeeds, a reflection walk over the tree finds none of the constructs of the explicit non-POSIX list (c11_posix.go: every construct that parser.go/lexer.go gate with checkLang/lang.in on a set without LangPOSIX or that nodes.go documents as variant specific); (2) if Parse(LangBash) succeeds and the source does not contain the text '@test' (Bats' one documented extension keyword), Parse(LangBats) succeeds with an identical dump including positions and comments; (3) for every variant in which the program parses, parsing with RecoverErrors(1), (2), (5) returns a nil error and an identical dump (positions, comments; a recovered position would show as a difference). distinct = distinct programs valid in at least one variant",
 			len(c11Alphabet), insMaxLen, mutCorpus, mutMaxLen)
